@@ -157,6 +157,9 @@ func init() {
 					return strings.HasPrefix(o.Construct, "alloc/") || strings.HasPrefix(o.Construct, "ptr-store/")
 				}), 3)
 			}},
+			{ID: "C14.R5", Doc: "`the value Get returns`, which the untyped views hand to their callbacks, exists for every element: Get is spine[index].getVal() for every index in range, a nil element included (= C05.R6 on Get)", Run: func(c *Ctx) {
+				c.R.Floor("C14.R5", runAs(c, "C14.R5", c05Reference, func(o *Obligation) bool { return strings.Contains(o.Construct, "(*list).Get") }), 1)
+			}},
 			{ID: "C14.R4", Doc: "TypeOf, the kind the typed views must agree with, reports every stored kind, containers by their interface (= C12.R3)", Run: func(c *Ctx) {
 				c.R.Floor("C14.R4", runAs(c, "C14.R4", c12R3, func(o *Obligation) bool { return strings.Contains(o.Construct, "TypeOf") }), 2)
 			}},
